@@ -135,6 +135,7 @@ MC_ORACLE static void wait_end (int x, int64_t dl, int r) {
 	}
 	(void) x;
 }
+MC_ORACLE static int seen_before (int x) { return seen_notified[x] != 0; }
 MC_ORACLE static void mark_rescue (void) { rescue_begun = 1; }
 MC_ORACLE static void mark_free_begun (int x) { free_begun[x] = 1; }
 MC_ORACLE static void mark_freed (int x) { freed[x] = 1; }
@@ -166,9 +167,12 @@ static void note_thread (int me) {
 			else if (got > MC_T0) mc_fail ("nsync_note_expiry (%c) is in the future (%lld) although a deadline on its path had passed at creation", letters[x], (long long) got);
 			break; }
 		case 'k': {
+			/* sampled BEFORE the creation begins: a child whose creation started after X had been observed
+			   notified must be born notified; one that was linked earlier and is still waiting for a
+			   notification in progress to reach it need not be yet */
+			int parent_seen = seen_before (x);
 			nsync_note kid = nsync_note_new (note[x], nsync_time_no_deadline);
 			if (kid != NULL) {
-				int parent_seen = seen_notified[x] != 0;
 				int done_before = cause_done (x);   /* every notification of x / an ancestor that was begun has completed */
 				r = nsync_note_is_notified (kid);
 				mc_assert (r || !parent_seen, "a child created under note %c after it was seen notified is not notified", letters[x]);
